@@ -68,7 +68,7 @@ PROPS = {
     },
     'C09': {
         'modules': ['SE.Props.C09', 'SE.Gen.TieLine'],
-        'streams': [{'component': 'parse_c09', 'info_comparable': True}],
+        'streams': [{'component': 'parse_c09', 'info_comparable': True}, {'component': 'binary', 'confirm': True}],
         'level': 'proof',
         'trusted_base': ["strconv.ParseFloat results are shipped by the harness (oracle `pf`)"],
         'assumptions': [],
@@ -82,7 +82,7 @@ PROPS = {
     },
     'C01': {
         'modules': ['SE.Props.C01', 'SE.Gen.TieRegistry'],
-        'streams': [{'component': 'pipe_c01', 'note_kinds': set()}],
+        'streams': [{'component': 'pipe_c01', 'note_kinds': set()}, {'component': 'binary', 'confirm': True, 'seed_off': 500}],
         'level': 'proof',
         'trusted_base': ["client_golang v1.22.0 (vector constructors, child creation and its panics, counter/gauge/histogram/summary updates, Delete, Gather's family checks) and perks' Query fast path are modelled by hand from their sources (SE/Model/Registry.lean)", 'FNV-64 label-hash collisions assumed away', 'IEEE float64 = Lean Float in the driver; strconv.ParseFloat and regexp results shipped by the harness', 'yaml.v2 decodes the rendered configuration to the intended fields'],
         'assumptions': [],
@@ -103,7 +103,7 @@ PROPS = {
     },
     'C05': {
         'modules': ['SE.Props.C05'],
-        'streams': [{'component': 'pipe_c05', 'note_kinds': set()}],
+        'streams': [{'component': 'pipe_c05', 'note_kinds': set()}, {'component': 'hashlabels', 'note_kinds': {'hash'}}],
         'level': 'proof',
         'trusted_base': ["client_golang v1.22.0 (vector constructors, child creation and its panics, counter/gauge/histogram/summary updates, Delete, Gather's family checks) and perks' Query fast path are modelled by hand from their sources (SE/Model/Registry.lean)", 'FNV-64 label-hash collisions assumed away', 'IEEE float64 = Lean Float in the driver; strconv.ParseFloat and regexp results shipped by the harness', 'yaml.v2 decodes the rendered configuration to the intended fields'],
         'assumptions': [],
